@@ -167,6 +167,8 @@ def _rand_tensor(rng, shape, style):
         return v
     if style == "big":
         return [rng.uniform(-1e3, 1e3) for _ in range(n)]
+    if style == "tiny":      # far above the default epsilon (1e-12), far below ordinary magnitudes
+        return [rng.uniform(-2e-9, 2e-9) for _ in range(n)]
     return [rng.uniform(-2, 2) for _ in range(n)]
 
 
@@ -197,7 +199,10 @@ def random_trace(rng, steps):
             nd = len(shape)
             dim = rng.choice([None, -1, 0] + ([tuple(range(nd))] if nd > 1 else []) + ([1] if nd > 1 else []))
             real["hooks"][str(i)] = {"order": rng.choice(ORDERS), "scale": rng.choice(SCALES),
-                                     "dim": list(dim) if isinstance(dim, tuple) else ("None" if dim is None else dim)}
+                                     "dim": list(dim) if isinstance(dim, tuple) else ("None" if dim is None else dim),
+                                     # the documented epsilon only guards zero-valued norms: a vector whose norm is
+                                     # above it is normalised exactly, whatever its value
+                                     "epsilon": rng.choice(["None", "None", 1e-3, 1e-4, 1e-12])}
         hooks.append(h)
     init = {"training": rng.random() < 0.7, "cf": True, "pre": [0], "post": [0], "hooks": hooks,
             "x": {"num": [], "den": 0, "r": 0, "c": 0}}
@@ -214,7 +219,7 @@ def random_trace(rng, steps):
         elif r < 0.40:
             op = {"a": "train", "b": rng.random() < 0.5}
         elif r < 0.50:
-            style = rng.choice(["uniform", "uniform", "int", "zero", "zrow", "big"])
+            style = rng.choice(["uniform", "uniform", "int", "zero", "zrow", "big", "tiny"])
             vals = _rand_tensor(rng, shape, style)
             ret = impl.apply({"a": "setx_real", "vals": vals})
             st = impl.project()
